@@ -368,6 +368,11 @@ def __parse_header(
             reapplier = MacroReapplier(file_name, line, header_str)
         else:
             reapplier = None
+        if not tokenizer.programs:
+            # `# `, `#// comment`, or a macro that expands to nothing
+            raise HeaderSyntaxException(
+                "Expected directive after '#'", file_name, line, line_str
+            )
         directive_and_args = tokenizer.programs[0]
         directive_token = directive_and_args[0]
         arg_tokens = directive_and_args[1:]
